@@ -67,6 +67,14 @@ def generate(tier, seed):
         content = lines_for(dn) + (lines_for(do) if same_shape else [])
         cases.append(case("eng", spec_of(do), adapter_F(content), "-", steps))
         dist["pairs"] += 1
+        # the same reconfiguration with a model object that already CARRIES rules (filled through Model::add_policy, or a
+        # clone of a model that was in use): they must not survive into the reconfigured enforcer - a fresh one holds the
+        # adapter's contents only
+        carried = [["p", "p"] + l[1:] for l in lines_for(dn) if l[0] == "p"][:2] + [["g", l[0]] + l[1:] for l in lines_for(dn) if l[0] != "p"][:2]
+        if carried and (old == new or len(cases) % 3 == 0):
+            steps2 = ["SMR:%s:%s" % (spec_of(dn), enc_rules(carried)), "FRESH"] + qblock(dn)
+            cases.append(case("eng", spec_of(do), adapter_F(content), "-", steps2))
+            dist["carried_rules"] = dist.get("carried_rules", 0) + 1
     # add_function first, then a set_model whose matcher CALLS that function (a user function, an overridden built-in):
     # the reconfigured enforcer must still have it, as the fresh twin (same components) does
     ufm = And(Call("uf1", V("r", "sub"), V("p", "sub")), Eq(V("r", "obj"), V("p", "obj")), Eq(V("r", "act"), V("p", "act")))
